@@ -54,6 +54,14 @@ HARNESS = r'''
             Err(_) => {}
         }
     }
+    #[kani::proof]
+    #[kani::unwind(70)]
+    fn canary_wire_proof_accepted_reachable() {
+        let raw = raw::Proof { audit_path: Bytes(vec![0u8; 32]), leaf_index: kani::any(), tree_size: kani::any() };
+        let r = <merkle::Proof as Protobuf>::try_from_raw(raw);
+        assert!(r.is_err());             // must FAIL: some wire proofs decode
+        std::mem::forget(r);
+    }
 '''
 
 UNIT = dict(
@@ -69,6 +77,7 @@ UNIT = dict(
         dict(name="wire_proof_decode_reencode_verify_total", obligation="merkle::Proof::try_from_raw+into_raw::total+ensures#roundtrip",
              label="decoding any wire proof never panics, an accepted proof re-encodes to the same message, and verifying it never panics",
              bounded="audit path of at most 40 bytes; leaf_index and tree_size over the full u64 domain"),
+        dict(name="canary_wire_proof_accepted_reachable", expect="fail"),
     ],
     jobs=4, harness_timeout=400,
     assumptions=["mode M: the astria-merkle crate is the real crate; `impl Protobuf for merkle::Proof` is cut from astria-core and compiled against stand-ins for the Protobuf trait and the prost-generated raw::Proof (Bytes = Vec<u8>)",
